@@ -18,7 +18,7 @@ for pid in sorted(os.listdir(OUT)):
     wt = "/tmp/wt/" + pid
     if not os.path.isdir(d) or not os.path.isdir(wt):
         continue
-    for n in (1, 2):
+    for n in (1, 2, 3, 4):
         patch = os.path.join(d, "patch_%d.diff" % n)
         demo = os.path.join(d, "demo_%d.py" % n)
         if not (os.path.exists(patch) and os.path.exists(demo)):
